@@ -165,7 +165,7 @@ func (e *Engine) bigDivZeroCheck(y bigV) {
 		return
 	}
 	if e.branch(z) {
-		panic(targetPanic{e.mkStr("division by zero")})
+		panic(targetPanic{v: e.mkStr("division by zero")})
 	}
 }
 
